@@ -293,6 +293,21 @@ pub fn strategy() -> impl Strategy<Value = Case> {
     )
         .prop_map(|(mut c, extras)| {
             c.extras = extras;
+            // relations between name and unit (a label builder may compare them): the unit is the tail of the name, in
+            // the same or the other letter case, or the name itself
+            if let Some((_, Some(name), unit, _, scod)) = &mut c.extras {
+                let n = name.chars().count();
+                if n > 0 && *scod % 3 == 0 {
+                    let keep = 1 + (*scod as usize / 3) % n.min(3);
+                    let tail: String = name.chars().skip(n - keep).collect();
+                    *unit = Some(match *scod % 4 {
+                        0 => tail,
+                        1 => tail.to_uppercase(),
+                        2 => tail.to_lowercase(),
+                        _ => name.clone(),
+                    });
+                }
+            }
             c
         })
 }
